@@ -69,6 +69,9 @@ def run_corr(ctx, sources, log, budget=20000, stages=("compile", "eval"), shard_
     items, index = [], []
     for st in stages:
         for i, (s, o) in enumerate(zip(sources, obs[st])):
+            if o.startswith("OOM"):
+                ctx.count("corr-skipped-oom")      # the address-space limit is not part of the model
+                continue
             if st == "compile":
                 items.append("RCompile %s %s" % (vlib.coq_text(s), vlib.coq_hash(o)))
             else:
